@@ -86,7 +86,16 @@ fn fam_patterns(_t: Tier) -> BoxedStrategy<Case> {
 
 fn fam_random(_t: Tier) -> BoxedStrategy<Case> {
     let opts = DocOpts { random_fns: true, ..DocOpts::all() };
-    (gen::docgen(opts, 12, gen::benign_text().boxed()), gen::cfg_benign()).prop_map(|(input, cfg)| Case { input, cfg, fam: "random-fns".into() }).boxed()
+    // (one document in three sets the seed itself, through a <config> element - with values of every kind, valid or not)
+    const SEEDS: &[&str] = &["7", "layout-b", "-1", "1.5", "0x10", "", "18446744073709551616", "{{3 + 4}}", " 12 ", "seven"];
+    (gen::docgen(opts, 12, gen::benign_text().boxed()), gen::cfg_benign(), 0usize..30)
+        .prop_map(|(mut input, cfg, k)| {
+            if k < SEEDS.len() {
+                input = input.replacen("<svg>", &format!("<svg>\n  <config seed=\"{}\"/>\n  <text xy=\"0 -9\" text=\"{{{{randint(1, 100000)}}}}\"/>", SEEDS[k]), 1);
+            }
+            Case { input, cfg, fam: "random-fns".into() }
+        })
+        .boxed()
 }
 
 fn fam_errors(_t: Tier) -> BoxedStrategy<Case> {
